@@ -10,7 +10,7 @@ PROP = {'drive': ['Shape'],
                        'C07_history_independent',
                        'C07_no_panic_partial',
                        'C07_unguarded_panics'],
- 'areas': [('shape', 9000, 600000)],
+ 'areas': [('shape', 60000, 1500000)],
  'rule': 'distinct case lines (lookup list, GDEF, lookup indices, history of 1-5 glyph sequences); '
          'non-trivial = history with at least one non-empty sequence; every case is run on six streams '
          '(V apply, D text, D hist, D safe, G stack, G guarded)',
@@ -19,10 +19,10 @@ PROP = {'drive': ['Shape'],
              'chained 1-3) needs preservation of stack well-formedness by fixStackInsert/fixStackMerge and is '
              'not proved; it is evaluated on the real code for every generated guarded case by the direct '
              'stream shape.safe (expected value "ok" for every guarded list, contextual or not)',
-             'subtables modelled: GSUB 1.1 1.2 2.1 3.1 4.1 8.1, SeqContext1/2/3, ChainedSeqContext1/2/3, GPOS '
-             '1.1 1.2; NOT modelled: GPOS 2.1 2.2 3.1 4.1 6.1 (cases containing them are skipped by the '
-             'generator and counted), so the mark-class index part of DESIGN 9 #15 (gpos4.go/gpos6.go/gpos.go) '
-             'is not covered',
+             'all subtable types with an apply method are modelled (GSUB 1.1 1.2 2.1 3.1 4.1 8.1, '
+             'SeqContext1/2/3, ChainedSeqContext1/2/3, GPOS 1.1 1.2 2.1 2.2 3.1 4.1 6.1) except GPOS 5.1, whose '
+             'apply is a stub returning -1 in the repository (declared unimplemented; cases containing it are '
+             'skipped and counted)',
              'Layouter (layout.go in the repository root: buffer reuse, font.GlyphWidth(gid) with an '
              'out-of-range gid, DESIGN 9 #34) is not modelled; history independence is proved for '
              'gtab.Context only',
@@ -35,7 +35,7 @@ PROP = {'drive': ['Shape'],
                            '(bsearch mirrors the library loop exactly) and compared by correspondence',
                            'the scratch-slice reuse (ctx.scratch) and in-place slice updates are modelled as '
                            'fresh lists; after repair #11 no two live slices share a backing array'],
- 'assumptions': ['the model mirrors the code as repaired for DESIGN 9 #11 #12 #13 #14(a,b) #15(SeqContext2) #33; '
+ 'assumptions': ['the model mirrors the code as repaired for DESIGN 9 #11 #12 #13 #14(a,b) #15 #33; '
                  'corpus/C07/defects.case keeps the inputs that failed before the repairs',
                  'Guarded (hypothesis of C07_no_panic_partial): coverage indices inside the indexed arrays '
                  '(established by the reader through cov.Prune), context format 3 with at least one input '
@@ -44,7 +44,7 @@ PROP = {'drive': ['Shape'],
 
 LEVEL = {'text': 'Proof: the engine model (Context.Apply, applyAtRecursively with the regenerated budget 64, '
          'applyAt, fixStackInsert, fixStackMerge, the lookup-flag filter, apply of GSUB 1.1-4.1/8.1, contexts '
-         '1-3, chained contexts 1-3, GPOS 1.x) is proved in Lean, for ALL tables (indices unconstrained), GDEF '
+         '1-3, chained contexts 1-3, GPOS 1-4 and 6) is proved in Lean, for ALL tables (indices unconstrained), GDEF '
          'data, sequences, left-over stacks and call histories, to terminate within explicit fuel (len outer '
          'steps per lookup, 2*B+|stack| inner iterations), to permute the attached runes (List.Perm), to '
          'respect an explicit length bound, to leave the stack empty and hence to be history independent; '
